@@ -219,7 +219,7 @@ void run_types(Ctx& c, const Setup& setup, const rsgen::Generator& gen, int dept
     if (i % 7919 == 5) c.rep.sample(rsast::render(T, RenderOpt{}).text + (modelOk ? "  :  " + mr.type.str() : "  :  ill-typed (" + mr.why + ")"));
     c.done();
   };
-  try { gen.closedStream(depth, one); streamDefinitions(gen, one); } catch (const StopEnumeration&) {}
+  try { gen.closedStream(depth, one); gen.imperativeChains(one, 2); streamDefinitions(gen, one); } catch (const StopEnumeration&) {}
 }
 
 
@@ -413,8 +413,10 @@ void run_eval(Ctx& c, const Setup& setup, const rsgen::Generator& gen, int depth
     std::set<std::string> names; mentioned(T, setup.ref, names);
     std::vector<std::pair<std::string, rl::Syntax>> variants;
     variants.push_back({ text, rl::Syntax::MATH });
-    { RenderOpt o; o.syn = Syn::ASCII; variants.push_back({ rsast::render(T, o).text, rl::Syntax::ASCII }); }
-    { RenderOpt o; o.paren = Paren::MAX; auto r = rsast::render(T, o); if (r.optionalPairs > 0) variants.push_back({ r.text, rl::Syntax::MATH }); }
+    if (compareModel) {   // independence of syntax variant and redundant parentheses is a C01 clause; C02 evaluates the MATH text only
+      { RenderOpt o; o.syn = Syn::ASCII; variants.push_back({ rsast::render(T, o).text, rl::Syntax::ASCII }); }
+      { RenderOpt o; o.paren = Paren::MAX; auto r = rsast::render(T, o); if (r.optionalPairs > 0) variants.push_back({ r.text, rl::Syntax::MATH }); }
+    }
     uint64_t interps = 0; bool anyValue = false;
     interpretations(names, maxBase, fullProduct, [&](const Interp& in) {
       ++interps;
@@ -476,7 +478,7 @@ void run_eval(Ctx& c, const Setup& setup, const rsgen::Generator& gen, int depth
     if (i % 4001 == 3) c.rep.sample(text + "  under " + std::to_string(interps) + " interpretations");
     c.done();
   };
-  try { for (auto& n : curated()) one(Node(n)); gen.closedStream(depth, one); } catch (const StopEnumeration&) {}
+  try { for (auto& n : curated()) one(Node(n)); gen.imperativeChains(one, static_cast<size_t>(c.opt->num("impblocks", 3))); gen.closedStream(depth, one); } catch (const StopEnumeration&) {}
 }
 
 }  // namespace
